@@ -2,9 +2,11 @@ package props
 
 import (
 	"bytes"
+	"context"
 	"crypto/tls"
 	"errors"
 	"fmt"
+	"io"
 	"math/rand/v2"
 	"net"
 	"slices"
@@ -87,6 +89,11 @@ func foreignHello(r *rand.Rand, echKind string, key *gen.KeyMat, tls13 bool, big
 		exts = append(exts, gen.Ext{Type: 0xfe0d, Data: gen.ECHOuter{KDF: 1, AEAD: 1, ConfigID: uint8(r.IntN(256)), Enc: gen.RandBytes(r, 32), Payload: gen.RandBytes(r, 100+r.IntN(200))}.Data()})
 	case "sameid":
 		exts = append(exts, gen.Ext{Type: 0xfe0d, Data: gen.ECHOuter{KDF: 1, AEAD: uint16(1 + r.IntN(3)), ConfigID: key.ID, Enc: gen.RandBytes(r, 32), Payload: gen.RandBytes(r, 100+r.IntN(200))}.Data()})
+	case "badenc":
+		// names a held key's id and an offered suite, but enc is not a usable X25519 share: a stale config
+		// of another KEM under the same id (65-byte P-256 point), a truncated one, a low-order point
+		enc := [][]byte{gen.RandBytes(r, 65), gen.RandBytes(r, 16), make([]byte, 32), gen.RandBytes(r, 31), gen.RandBytes(r, 33), {1}}[r.IntN(6)]
+		exts = append(exts, gen.Ext{Type: 0xfe0d, Data: gen.ECHOuter{KDF: 1, AEAD: uint16(1 + r.IntN(3)), ConfigID: key.ID, Enc: enc, Payload: gen.RandBytes(r, 100+r.IntN(200))}.Data()})
 	case "othersuite":
 		exts = append(exts, gen.Ext{Type: 0xfe0d, Data: gen.ECHOuter{KDF: uint16(2 + r.IntN(3)), AEAD: uint16(4 + r.IntN(30)), ConfigID: key.ID, Enc: gen.RandBytes(r, 32), Payload: gen.RandBytes(r, 50)}.Data()})
 	}
@@ -110,7 +117,7 @@ func genC05(env *core.Env, emit func(core.Case)) {
 	other := gen.NewKey(r, 78, "public.example", gen.AllSuites)
 	n := env.Pick(2500, 60000)
 	for i := 0; i < n; i++ {
-		echKind := []string{"none", "none", "grease", "sameid", "othersuite"}[r.IntN(5)]
+		echKind := []string{"none", "none", "grease", "sameid", "othersuite", "badenc"}[r.IntN(6)]
 		keyset := []string{"none", "unrelated", "sameid"}[r.IntN(3)]
 		tls13 := r.IntN(4) != 0
 		big := r.IntN(12) == 0
@@ -174,6 +181,33 @@ func genC05(env *core.Env, emit func(core.Case)) {
 				}
 			} else {
 				s.X("the hello is forwarded", fmt.Sprintf("only %d bytes delivered (err %s)", len(d.Data), d.Err))
+			}
+			// a relay that forwards with io.Copy (which uses WriteTo / ReadFrom when a Conn offers them)
+			// moves the same bytes as one that calls Read and Write itself
+			if i%4 == 0 {
+				cp := make([][]byte, len(chunks))
+				for j := range chunks {
+					cp[j] = bytes.Clone(chunks[j])
+				}
+				fk := &connh.FakeConn{Chunks: cp, Fin: "eof"}
+				w := ""
+				if c2, err := ech.NewConn(context.Background(), fk, ech.WithKeys(keys)); err != nil {
+					w = "second NewConn on the same bytes failed: " + err.Error()
+				} else {
+					var fwd bytes.Buffer
+					if _, err := io.Copy(&fwd, c2); err != nil {
+						w = "io.Copy from the Conn failed: " + err.Error()
+					} else if !bytes.Equal(fwd.Bytes(), d.Data) {
+						w = fmt.Sprintf("io.Copy from the Conn forwarded %d bytes, a Read loop %d: first difference at %d", fwd.Len(), len(d.Data), firstDiff(fwd.Bytes(), d.Data))
+					}
+					resp := gen.Cat(gen.ServerHelloRecord(r, false, h.SID), gen.Record(23, 0x0303, gen.RandBytes(r, 5000+r.IntN(3000))))
+					if _, err := io.Copy(c2, bytes.NewReader(resp)); err != nil && w == "" {
+						w = "io.Copy to the Conn failed: " + err.Error()
+					} else if w == "" && !bytes.Equal(fk.Out, resp) {
+						w = fmt.Sprintf("io.Copy to the Conn delivered %d of %d backend bytes unchanged", firstDiff(fk.Out, resp), len(resp))
+					}
+				}
+				s.X("forwarding with io.Copy moves the same bytes as Read / Write loops", w)
 			}
 			back := gen.Cat(gen.ServerHelloRecord(r, false, h.SID), gen.RandBytes(r, r.IntN(60)))
 			var got []byte
